@@ -201,12 +201,14 @@ def _one_op(ch, p, op, patience):
                     except ValueError:
                         ret = 'ValueError'
                 elif name == 'read':
+                    was_closed = bool(p.closed)
                     try:
                         p.read_nonblocking(1, 0); ret = 'ok'
                     except pexpect.TIMEOUT:
-                        ret = 'ok'
+                        ret = 'ok' if not was_closed else 'TIMEOUT-on-a-closed-object'
                     except pexpect.EOF:
-                        ret = 'ok'
+                        # the ordinary end of the stream - but not on a closed object: there a read is an error, whatever was seen before
+                        ret = 'ok' if not was_closed else 'EOF-on-a-closed-object'
                     except ValueError:
                         ret = 'ValueError'
                     except OSError:
@@ -264,8 +266,8 @@ def oracle(disp, plan, ops, line):
             return '*', 'terminate(force=True) returned %s, terminated=%s (the death it reports must also be recorded: %s)' % (r, fields[i]['t'], steps[i][1])
         if op == 'term:0' and r == 'true' and fields[i]['t'] != 'true':
             return '*', 'terminate() returned True but the object does not know the child\'s fate (%s)' % steps[i][1]
-        if op in ('send', 'read') and any(o.startswith('close') for o in ops[:i]) and r == 'ok':
-            return 'C10', '%s after close succeeded' % op
+        if op in ('send', 'read') and any(o.startswith(('close', 'exit')) for o in ops[:i]) and (r == 'ok' or r.endswith('on-a-closed-object')):
+            return 'C10', '%s after close %s' % (op, 'succeeded' if r == 'ok' else 'ended in ' + r.split('-')[0] + ' (the ordinary end of a stream, not an error)')
     return None
 
 
@@ -665,6 +667,8 @@ def run(ctx):
              ('hi', ('e', 4), ['close:0', 'exit:0', 'alive']),                  # inside a with-block: a polite close() the child survives, then the block ends
              ('hi', ('e', 4), ['close:0', 'exit:1']),
              ('', ('e', 4), ['exit:0', 'exit:0', 'send']),
+             ('', ('e', 2), ['ends', 'read', 'alive', 'close:1', 'read', 'send']),       # end of stream seen, child reaped, then closed: I/O is an error all the same
+             ('', ('s', 9), ['ends', 'read', 'read', 'exit:0', 'read']),
              ('hi', ('e', 7), ['close:0', 'ends', 'wait', 'alive']),
              ('hi', ('s', 9), ['close:0', 'ends', 'wait', 'wait']),
              ('hi', ('e', 0), ['close:0', 'close:0', 'ends', 'wait'])]
